@@ -80,6 +80,11 @@ SCHEMA = {
     "v": {"a": "int", "b": "int", "c": "int", "id": "int", "x": "int"},
 }
 
+SCHEMA_NESTED = {
+    "db1": {"t": {"a": "int", "b": "int"}, "w": {"a": "int"}},
+    "db2": {"t": {"a": "varchar", "c": "int"}},
+}
+
 OPT_QUERIES = [
     "SELECT t.a, u.b, v.c FROM t JOIN u ON t.id = u.id JOIN v ON u.id = v.id WHERE t.a > 1 AND u.b < 2 AND v.c = 3 AND t.x = v.x",
     "SELECT * FROM t, u, v WHERE t.id = u.id AND u.id = v.id AND v.a = t.a AND t.b = 1 AND u.c = 2",
@@ -456,6 +461,25 @@ def worker_reuse(dname, out_path):
         count("MappingSchema." + pname)
         if f_out != r_out:
             V("reuse-schema", "qualify", "schema-answer:" + pname, f"long-lived MappingSchema.{pname}: {r_out} fresh: {f_out}", inp)
+    # --- nested schema with an ambiguous / a missing table name: lenient (None) and strict (raise) questions interleaved
+    s_long = MappingSchema(SCHEMA_NESTED, dialect=dname or None)
+    amb = [
+        ("has_column", lambda sc: sc.has_column("t", "a")), ("column_names", lambda sc: sc.column_names("t")),
+        ("get_column_type", lambda sc: sc.get_column_type("t", "a").sql()), ("find", lambda sc: sc.find(exp.to_table("t"))),
+        ("find", lambda sc: sc.find(exp.to_table("t"), raise_on_missing=False)), ("column_names", lambda sc: sc.column_names("db1.t")),
+        ("has_column", lambda sc: sc.has_column("zz", "a")), ("column_names", lambda sc: sc.column_names("zz")),
+        ("find", lambda sc: sc.find(exp.to_table("zz"), raise_on_missing=False, ensure_data_types=True)),
+        ("find", lambda sc: sc.find(exp.to_table("zz"), ensure_data_types=True)), ("column_names", lambda sc: sc.column_names("w")),
+        ("qualify", lambda sc: qualify(sqlglot.parse_one("SELECT * FROM t"), schema=sc, dialect=dname or None).sql()),
+        ("annotate", lambda sc: annotate_types(sqlglot.parse_one("SELECT t.a FROM t"), schema=sc, dialect=dname or None).selects[0].type.sql()),
+        ("qualify", lambda sc: qualify(sqlglot.parse_one("SELECT a FROM db2.t"), schema=sc, dialect=dname or None).sql()),
+    ]
+    for n, (pname, probe) in enumerate(amb + amb[::-1] + amb[1::2] + amb[::2]):
+        f_out = captured(lambda: str(probe(MappingSchema(SCHEMA_NESTED, dialect=dname or None))))
+        r_out = captured(lambda: str(probe(s_long)))
+        count("MappingSchema." + pname)
+        if f_out != r_out:
+            V("reuse-schema", "nested", "schema-answer:" + pname, f"long-lived nested MappingSchema.{pname} (probe {n}): {str(r_out)[:150]} fresh: {str(f_out)[:150]}", {"n": n, "sql": pname})
     json.dump({"violations": viol, "counts": counts, "inputs": len(inputs)}, open(out_path, "w"))
 
 
